@@ -11,7 +11,12 @@ type lazySubContext struct {
 }
 
 func (s *lazySubContext) GetMatch(idx int) string {
-	if idx < 0 || idx >= len(s.args) {
+	if idx < 0 {
+		// Not an argument index: pass through, so a stage that touches the context to stay
+		// un-optimized (eg. {time live}) still does inside a user-defined function
+		return s.sub.GetMatch(idx)
+	}
+	if idx >= len(s.args) {
 		return ""
 	}
 	return s.args[idx](s.sub)
